@@ -24,6 +24,7 @@ class PropertySpec:
 
 RULE_GROUPS: Dict[str, Callable] = {
     'wk.publish_notify': wk.rule_publish_notify,
+    'wk.waiting_request_notifies_its_dag': wk.rule_waiting_request_notifies_its_dag,
     'wk.fault_reaches_run': wk.rule_fault_reaches_run,
     'wk.launch_loop_error_exit': wk.rule_launch_loop_error_exit,
     'wk.primitives': wk.rule_primitives,
@@ -58,6 +59,7 @@ RULE_GROUPS: Dict[str, Callable] = {
     'st.ready_strict': st.rule_ready_strict,
     'st.store_contract': st.rule_store_contract,
     'st.case_selection_worlds': st.rule_case_selection_worlds,
+    'st.case_dag_worlds': st.rule_case_dag_worlds,
     'rd.launch_gated': rd.rule_launch_gated,
     'rd.field_agreement': rd.rule_field_agreement,
     'rd.switch_indirection': st.rule_switch_indirection_semantic,
@@ -140,6 +142,7 @@ RULE_GROUPS: Dict[str, Callable] = {
     'bw.merges': bw.rule_merges,
     'bw.string_annotations': bw.rule_string_annotations,
     'bw.build_node': bw.rule_build_node,
+    'bw.node_ids_one_to_one': bw.rule_node_ids_one_to_one,
     'bw.recurrent_validations': bw.rule_recurrent_validations,
     'ha.active_mark_released': ha.rule_active_mark_released,
     'rcw.recurrent_worlds': rcw.rule_recurrent_worlds,
@@ -148,6 +151,8 @@ RULE_GROUPS: Dict[str, Callable] = {
     'ha.no_blocking_wait_on_loop': ha.rule_no_blocking_wait_on_loop,
     'ha.pool_job_follows_cancellation': ha.rule_pool_job_follows_cancellation,
     'ha.verdict_before_own_cancellation': ha.rule_verdict_before_own_cancellation,
+    'ha.two_runs_share_no_mutable_state': ha.rule_two_runs_share_no_mutable_state,
+    'ha.caught_error_not_rendered': ha.rule_caught_error_not_rendered,
     'ha.error_scan_is_the_subdag': ha.rule_error_scan_is_the_subdag,
     'ha.test_and_create_atomic': ha.rule_test_and_create_atomic,
     'ha.no_process_wide_registry': ha.rule_no_process_wide_registry,
@@ -164,6 +169,7 @@ RULES: Dict[str, Tuple[str, str]] = {
     'WK-c': ('wk.publish_notify', 'after a final node result is published every path to the end of the task root notifies '
                                   'the descendants of that node'),
     'WK-d': ('wk.publish_notify', 'after a node value (result of node code) is published every path notifies the run waiter'),
+    'WK-n': ('wk.waiting_request_notifies_its_dag', 'a request that waited for another request\'s execution notifies the node\'s condition when the node is its dag\'s destination'),
     'WK-e': ('wk.publish_notify', 'after the result of a real node is published, on paths where the node is the destination '
                                   'of its dag, its own condition is notified'),
     'WK-f': ('wk.launch_loop_error_exit', 'the error exit of the launch loop notifies the destination of the dag it runs'),
@@ -242,6 +248,7 @@ RULES: Dict[str, Tuple[str, str]] = {
     'VL-9': ('bw.defects_rejected', 'every path of build() (traversal, single node, input = output) rejects a defective node with the specific error'),
     'VL-10': ('bw.defects_rejected', 'declaration sets free of defects build, one per mark kind'),
     'RC-11': ('rcw.recurrent_worlds', 'the running mark of a recurrent subgraph is released on every regular completion of its driver'),
+    'BN-8': ('bw.node_ids_one_to_one', 'nodes that differ in their explicit name or type get different node ids'),
     'BN-7': ('bw.build_node', 'deriving a node with build_node does not change the annotations of the class it derives from'),
     'BN-6': ('bw.build_node', 'two classes generated by build_node from one unnamed base get different node ids'),
     'FS-9': ('fw.write_once_map', 'save / load interpreted over an abstract file system obey the laws of a write-once map keyed exactly by the node id'),
@@ -252,6 +259,8 @@ RULES: Dict[str, Tuple[str, str]] = {
     'OO-12': ('ha.error_scan_is_the_subdag', 'the error scan of a sub-dag answers for exactly the nodes of that sub-dag'),
     'ER-11': ('ha.task_registry_only_grows', 'the registry of created tasks, which run() scans for failures, is only added to during a run'),
     'CC-13': ('ha.no_blocking_wait_on_loop', 'nothing that runs on the event-loop thread waits for another thread'),
+    'SH-11': ('ha.two_runs_share_no_mutable_state', 'two run managers of one DAG share no mutable object besides the DAG'),
+    'ER-13': ('ha.caught_error_not_rendered', 'no handler on the run path renders (str / f-string) the exception it caught'),
     'ER-12': ('ha.verdict_before_own_cancellation', 'the verdict of the run is read before the engine cancels its own tasks'),
     'EX-14': ('ha.pool_job_follows_cancellation', 'a job queued in a pool is cancelled with the task that awaits it'),
     'EX-13': ('ha.executor_wrapper_transparent', 'the pool wrapper re-raises what a body raised unchanged (StopIteration aside)'),
@@ -298,6 +307,7 @@ RULES: Dict[str, Tuple[str, str]] = {
                                      'abstract interpretation of the store and the predicate)'),
     'RD-2': ('st.ready_strict', 'the readiness predicate is false for an absent, hidden or Recurrent predecessor result and true '
                                 'for visible final values (abstract interpretation over all store states)'),
+    'SW-8': ('st.case_dag_worlds', 'the sub-dag run for the selected case holds the case and everything it depends on'),
     'SW-7': ('st.case_selection_worlds', 'a returned label records its own case; a value no case has fails the run'),
     'SW-4': ('st.store_contract', 're-arming a node hides it in every store that readiness, ordering or routing reads'),
     'ST-1': ('st.store_contract', 'publishing into a store makes the entry visible with exactly the published value from every '
@@ -723,9 +733,13 @@ _add('C12', 'EX-13')
 _add('C17', 'EX-13', 'RD-7')
 _add('C06', 'CC-13')
 _add('C13', 'EX-14')
-_add('C09', 'SW-7')
+_add('C09', 'SW-7', 'SW-8')
 _add('C04', 'EX-5')
-_add('C05', 'ER-12')
+_add('C05', 'ER-12', 'ER-13')
+_add('C02', 'WK-n')
+_add('C04', 'WK-n')
+_add('C07', 'SH-11')
+_add('C08', 'SH-11')
 _add('C14', 'LK-1', 'LK-2')
 _add('C12', 'EX-5')
 _add('C17', 'CC-13')
@@ -739,7 +753,7 @@ _add('C11', 'RC-12')
 _add('C04', 'RC-12')
 _add('C18', 'FS-9')
 _add('C17', 'SH-5')
-_add('C15', 'BN-6')
+_add('C15', 'BN-6', 'BN-8')
 _add('C16', 'BN-7')
 _add('C15', 'BN-7')
 _add('C07', 'BN-7')
